@@ -293,7 +293,12 @@ def special_pool():
         [("float32", [3], False, False), ("float64", [2, 2], True, False), ("float16", [], False, False), ("bfloat16", [2], True, False),
          ("int64", [0], False, False), ("bool", [2], False, False), ("complex64", [2], False, False), ("float32", [2], True, True),
          ("float32", [1], False, True), ("uint8", [3], False, False)])],
-        ("l", ["list", [["tensor", "float32", [2], True, False, 1], s("a")]]), ("d", ["dict", [["t", ["tensor", "int32", [1], False, False, 2]]]]))))
+        ("l", ["list", [["tensor", "float32", [2], True, False, 1], s("a")]]), ("d", ["dict", [["t", ["tensor", "int32", [1], False, False, 2]]]]),
+        # seeds divisible by 3 are built as views into a larger buffer (impl_C01.build): requires_grad inside containers
+        ("lv", ["list", [["tensor", "float32", [5], True, False, 3], ["tensor", "float64", [2, 2], True, False, 6]]]),
+        ("tv", ["tuple", [["tensor", "float32", [3], True, False, 9]]]),
+        ("dv", ["dict", [["w", ["tensor", "float64", [2], True, False, 12]], ["b", ["tensor", "float32", [], True, False, 15]]]]),
+        ("v", ["tensor", "float32", [4], True, False, 18]))))
     P.append(("modules", root(("m1", ["module", "linear", 1]), ("m2", ["module", "seq", 2]), ("m3", ["module", "modulelist", 3]),
                               ("m4", ["module", "tiny", 4]), ("l", ["tuple", [["module", "tiny-nobuf", 5]]]), ("g", ["tgen", 77]))))
     P.append(("optimizers", root(("o1", ["optimizer", "adam", 1, 2]), ("o2", ["optimizer", "sgd", 2, 0]), ("s1", ["scheduler", "sgd", 3, 3]))))
